@@ -3,6 +3,7 @@ CONSTANTS
   MissingOrder = "set"
   Reorder = FALSE
   PadFromFront = FALSE
+  DocExtras = {}
 INVARIANT NoDropNoDup
 INVARIANT SigDefaults
 INVARIANT SourceOrder
